@@ -118,6 +118,7 @@ type ContractSet struct {
 	RawScan  []string // assume/trusted/extern lines for the evidence
 	Axioms   []*Clause // assumed facts about package-level variables of dependencies
 	GhostMaps map[string]*SpecFunc // ghost maps: name -> (params, result type)
+	Immutables []*ImmutableDecl
 }
 
 func NewContractSet() *ContractSet {
@@ -312,7 +313,7 @@ func (cs *ContractSet) LoadFile(path, pkg string) error {
 			continue
 		}
 		if top && !map[string]bool{"func": true, "extern": true, "spec": true, "lemma": true, "monitor": true,
-			"objinv": true, "uninterp": true, "opaque": true, "axiom": true, "ghostmap": true}[w] {
+			"objinv": true, "uninterp": true, "opaque": true, "axiom": true, "ghostmap": true, "immutable": true}[w] {
 			if len(merged) > 0 {
 				merged[len(merged)-1].text += " " + l.text
 				continue
@@ -324,10 +325,11 @@ func (cs *ContractSet) LoadFile(path, pkg string) error {
 	var cur *FuncContract
 	var curMon *MonitorSpec
 	var curInv *ObjInv
+	var curImm []*ImmutableDecl
 	for _, l := range merged {
 		w, rest := firstWord(l.text)
 		if l.indent <= 1 {
-			cur, curMon, curInv = nil, nil, nil
+			cur, curMon, curInv, curImm = nil, nil, nil, nil
 			switch w {
 			case "func":
 				fc := &FuncContract{Kind: "func", Name: strings.TrimSpace(rest), Pkg: pkg, Loops: map[int]*LoopSpec{},
@@ -399,6 +401,16 @@ func (cs *ContractSet) LoadFile(path, pkg string) error {
 					Lets: map[string]*Expr{}, File: path, Line: l.line, Sites: map[string][]*Clause{}}
 				cs.Lemmas = append(cs.Lemmas, fc)
 				cur = fc
+			case "immutable":
+				for _, f := range strings.Split(rest, ",") {
+					parts := strings.SplitN(strings.TrimSpace(f), ".", 2)
+					if len(parts) != 2 {
+						return fmt.Errorf("%s:%d: immutable T.field expected", path, l.line)
+					}
+					d := &ImmutableDecl{Pkg: pkg, Type: parts[0], Field: parts[1], File: path, Line: l.line, Prefix: pkg + "." + parts[0] + "." + parts[1]}
+					cs.Immutables = append(cs.Immutables, d)
+					curImm = append(curImm, d)
+				}
 			case "ghostmap":
 				name, ps, rs, err := splitSig(strings.TrimSpace(rest))
 				if err != nil {
@@ -430,6 +442,15 @@ func (cs *ContractSet) LoadFile(path, pkg string) error {
 			continue
 		}
 		// sub-lines
+		if curImm != nil {
+			if w == "props" {
+				for _, d := range curImm {
+					d.Props = append(d.Props, strings.Fields(rest)...)
+				}
+				continue
+			}
+			return fmt.Errorf("%s:%d: only props is allowed under immutable", path, l.line)
+		}
 		if curMon != nil {
 			switch w {
 			case "protects":
